@@ -555,9 +555,26 @@ pub fn run(spec: &SeqSpec, hist: &[Op], cfg: &Cfg, stats: &SeqStats) -> Result<R
     let hi = last_idx.saturating_add(2);
     let lo = m.entries.keys().next().copied().unwrap_or(0).saturating_sub(1);
     let mut ranges: Vec<(u64, u64)> = vec![(0, u64::MAX), (0, hi)];
-    for a in lo..=hi {
-        for b in a..=hi {
-            ranges.push((a, b));
+    if hi - lo <= 24 {
+        for a in lo..=hi {
+            for b in a..=hi {
+                ranges.push((a, b));
+            }
+        }
+    } else {
+        // long logs (bulk appends): every single index, and all ranges between the
+        // boundary points (the ends, their neighbours, the middle, every 32nd index)
+        let mut pts: Vec<u64> = vec![lo, lo + 1, lo + 2, (lo + hi) / 2, (lo + hi) / 2 + 1, hi - 3, hi - 2, hi - 1, hi];
+        pts.extend((lo..=hi).step_by(32));
+        pts.sort();
+        pts.dedup();
+        for i in lo..=hi {
+            ranges.push((i, i + 1));
+        }
+        for (k, a) in pts.iter().enumerate() {
+            for b in &pts[k..] {
+                ranges.push((*a, *b));
+            }
         }
     }
     for (a, b) in ranges {
